@@ -3,7 +3,7 @@
    including the first one matching a pattern; they store the text they consume). *)
 From Coq Require Import String ZArith NArith List Bool Arith.
 From Coq Require Import Floats.SpecFloat.
-From Cfi Require Import Glue.Sx Py.PyStr Py.PyNum Py.PyBits Py.PyDate Model.Field Model.Line Model.Reader.
+From Cfi Require Import Glue.Sx Py.PyStr Py.PyNum Py.PyBits Py.PyDate Py.PyRe Model.Field Model.Line Model.Reader.
 From Cfi Require Import Proofs.ReaderProofs.
 Import ListNotations.
 
@@ -37,7 +37,7 @@ Proof. exact sectionfile_handoff. Qed.
 Print Assumptions C13_leftovers.
 
 Example C13_example :
-  read_sectionfile [SecLines 2; SecUntil [(false, s2l "END"%string)]] 40
+  read_sectionfile [SecLines 2; SecUntil (re_lit (s2l "END"%string))] 40
      (s2l "a"%string ++ [NL] ++ s2l "b"%string ++ [NL] ++ s2l "c END"%string ++ [NL] ++ s2l "tail"%string)
   = Some [ (Some 0, s2l "a"%string ++ [NL] ++ s2l "b"%string ++ [NL]); (Some 1, s2l "c END"%string ++ [NL]); (None, s2l "tail"%string) ].
 Proof. vm_compute. reflexivity. Qed.
